@@ -64,6 +64,7 @@ class Source:
         self.renamed = {}
         self.normalised = {}
         self.outside_subset = {}
+        self.new_state = {}
         try:
             if self.is_pyx:
                 self.low = pyxfront.lower(rel, text)
@@ -126,8 +127,8 @@ class Source:
         module-level excess fails at once, a function's excess when a rule asks for that function"""
         from . import subset
         inv = localnames.table().get(self.rel, {}).get("__inventory__") or {}
-        if "census" not in inv:
-            return
+        if "census" not in inv or os.environ.get("SA_REGENERATING_INVENTORY") == "1":
+            return      # (tools/gen_localnames.py collects the list of files with the guard off: the census it is about to write is the reference)
         new = subset.census(self.tree)
         if self.is_pyx:
             # compiler directives given as decorators are the business of the rules that read them; decorators that DECLARE C types
@@ -140,7 +141,14 @@ class Source:
                     if d_ not in old and d_.startswith(("cython.locals", "cython.returns", "cython.cfunc", "cython.ccall", "cython.exceptval",
                                                          "cython.inline", "cython.declare")):
                         c["node:cython-declaration-decorator"] = c.get("node:cython-declaration-decorator", 0) + 1
-        self.outside_subset = subset.flags(new, inv["census"])
+        # new instance attributes (state between calls that no rule knows) do not stop the rules: they are reported as "cannot decide"
+        # at the end of a run that found nothing else (core.run_property)
+        def _without_attrs(c_):
+            return {k_: {kk_: v_ for kk_, v_ in d_.items() if not kk_.startswith("selfattr:")} for k_, d_ in c_.items()}
+        self.new_state = {k_: sorted(kk_[9:] for kk_ in d_ if kk_.startswith("selfattr:") and kk_ not in (inv["census"].get(k_) or {}))
+                          for k_, d_ in new.items() if k_ in inv["census"]}
+        self.new_state = {k_: v_ for k_, v_ in self.new_state.items() if v_}
+        self.outside_subset = subset.flags(_without_attrs(new), _without_attrs(inv["census"]))
         self.tree._outside_subset = set(self.outside_subset)
         if "<module>" in self.outside_subset:
             raise AnalysisError(f"{self.rel}: the module body is outside the analysed subset of Python: {self.outside_subset['<module>']}")
@@ -257,6 +265,7 @@ class Ctx:
         self._cache = {}
         self.obligations = []  # dicts
         self.findings = []
+        self.undecided = []       # "cannot decide" verdicts that do not stop the other rules: reported (exit 2) only when nothing is violated
         self.stats = {}
         self.files = set()
         self.notes = []
@@ -327,6 +336,12 @@ class Ctx:
         """anchor requirement: failing means the analysis is broken"""
         if not cond:
             raise AnalysisError(f"anchor vanished: {what}")
+
+    def cannot_decide(self, cond, what):
+        """a construct one rule cannot follow: the other rules still run (a violation they find is reported as such); if none does,
+        the run ends as "cannot decide" (exit 2)"""
+        if not cond and what not in self.undecided:
+            self.undecided.append(what)
 
     def floor(self, rule, n, minimum):
         """instance-count floor: a rule matching fewer instances than were
@@ -442,6 +457,15 @@ def run_property(prop, tier, overrides=None, repo=None):
             _lints.dtype_family_tests(ctx, rel_, "R0.dtype-family-test", 0)
             _lints.alphabets_compared_by_value(ctx, rel_, "R0.alphabet-compared-by-value", 0)
             _lints.lookup_results_tested_for_none(ctx, rel_, "R0.lookup-found-is-not-none", 0)
+    for rel_ in sorted(ctx.files - getattr(ctx, "swept", set())):
+        for cls_, attrs_ in sorted(getattr(ctx._cache.get(rel_), "new_state", {}).items()):
+            ctx.cannot_decide(False, f"{rel_}: class {cls_} keeps new state on its instances ({', '.join('self.' + a_ for a_ in attrs_)}): a value kept "
+                                     "between calls (a memo, a cache, a flag) that no rule written for the class knows - whether it is kept up to date "
+                                     "cannot be decided")
+    if ctx.undecided:
+        known = known_index(prop)
+        if all(f.key() in known for f in ctx.findings):
+            raise AnalysisError("cannot decide: " + " | ".join(ctx.undecided))
     return ctx, mod
 
 
@@ -684,6 +708,10 @@ def check(prop, tier="quick", jobs=1, seed=0):
     for k in sorted(stale):
         print(f"note: listed finding no longer reproduced by the rule: {k}")
     rc = 0
+    if not violations and ctx.undecided:
+        for u_ in ctx.undecided:
+            print(f"ANALYSIS-ERROR property={prop} cannot decide: {u_}")
+        return 2
     if violations:
         os.makedirs(os.path.join(VERIF, "evidence", "replay"), exist_ok=True)
         seen = set()
